@@ -35,6 +35,7 @@ func ruleC19(c *Check) {
 	c.moduleWiring("C19.7", map[string]bool{"genesis": true})
 	c.paramSetExact("C19.8")
 	c.genesisImportsAll("C19.5")
+	c.siblingBounds("C19.6")
 	c.addressRoles("C19.9")
 }
 
@@ -1077,4 +1078,101 @@ func (c *Check) genesisImportsAll(rule string) {
 		c.req(hit != nil, rule, "GenesisState."+F+"#import-all", pos,
 			"every element of "+F+" is stored (family "+fam+") from a loop over that collection, unconditionally"+condStr(hit == nil && len(why) > 0, ": "+strings.Join(why, "; "))+condStr(hit == nil && len(why) == 0, ": no store of the family in the import"))
 	}
+}
+
+// siblingBounds: validators of package types that bound the same kind of value by the same named constant reject under the
+// same comparison. The context's provider list is bounded by one constant in the validator of a new call / of a stored
+// context and in the validator of an update: if one says "more than the maximum" and the other "at least the maximum", a
+// list that an update legally stores makes the stored context fail the genesis validation of its own export.
+func (c *Check) siblingBounds(rule string) {
+	type occ struct {
+		fn   *Func
+		fact string
+		pos  token.Pos
+	}
+	by := map[string][]occ{}
+	for _, f := range c.handFuncs("types") {
+		if f.Obj == nil || !strings.HasPrefix(f.Obj.Name(), "Validate") || f.Body == nil {
+			continue
+		}
+		if _, hasErr := f.hasErrorResult(); !hasErr {
+			continue
+		}
+		seen := map[string]bool{}
+		for _, pa := range c.P.PathsOf(f) {
+			if pa.Exit != ExitRevert {
+				continue
+			}
+			// the condition that led to the rejection: the last branch fact on the path
+			var last *Event
+			for _, ev := range pa.Events {
+				if ev.Kind == EvFact {
+					last = ev
+				}
+			}
+			if last == nil {
+				continue
+			}
+			var consts []string
+			mentionsParam := false
+			last.Fact.T.Walk(func(t *Term) bool {
+				if t.Op == "" && strings.HasPrefix(t.At, "#types.") {
+					consts = append(consts, t.At)
+				}
+				if t.Op == "" && strings.HasPrefix(t.At, "P") {
+					mentionsParam = true
+				}
+				return true
+			})
+			if len(consts) != 1 || !mentionsParam {
+				continue
+			}
+			// parameters by type, so that the two validators are comparable
+			fs := last.Fact.String()
+			for i, pr := range f.Params {
+				fs = strings.ReplaceAll(fs, fmt.Sprintf("P%d)", i), "<"+typeName(pr.Type())+">)")
+				fs = strings.ReplaceAll(fs, fmt.Sprintf("P%d ", i), "<"+typeName(pr.Type())+"> ")
+			}
+			k := consts[0] + "|" + f.Name + "|" + fs
+			if seen[k] {
+				continue
+			}
+			seen[k] = true
+			by[consts[0]] = append(by[consts[0]], occ{f, fs, last.Pos})
+		}
+	}
+	var ks []string
+	for k := range by {
+		ks = append(ks, k)
+	}
+	sort.Strings(ks)
+	nShared := 0
+	for _, k := range ks {
+		os := by[k]
+		fns := map[*Func]bool{}
+		facts := map[string]int{}
+		for _, o := range os {
+			fns[o.fn] = true
+			facts[o.fact]++
+		}
+		if len(fns) < 2 {
+			continue
+		}
+		nShared++
+		c.Sites += len(os)
+		ok := len(facts) == 1
+		var names []string
+		for f := range fns {
+			names = append(names, f.Name)
+		}
+		sort.Strings(names)
+		var fl []string
+		for f := range facts {
+			fl = append(fl, f)
+		}
+		sort.Strings(fl)
+		c.req(ok, rule, "bound:"+strings.TrimPrefix(k, "#")+"@"+strings.Join(names, "~"), os[0].pos,
+			"validators that bound a value by "+strings.TrimPrefix(k, "#")+" reject under the same comparison"+condStr(!ok, ": "+strings.Join(fl, "  vs  ")))
+	}
+	c.req(nShared >= 1, rule, "shared-bounds", token.NoPos, fmt.Sprintf("%d named constants bound values in more than one validator", nShared))
 }
